@@ -189,3 +189,14 @@ Arguments ORejected {K V}.
 Arguments OValueError {K V}.
 Arguments OGet {K V} v.
 Arguments OList {K V} l.
+
+(* does a read issued through the enfolding cache consult the backend? *)
+Definition enfold_reads_backend {K V} (keq : K -> K -> bool) (st : enfold K V) (p : op K V) : bool :=
+  match p with
+  | Get u => match s_get K V keq u (e_cache K V st) with Some _ => false | None => true end
+  | GetAll limit offset =>
+      match get_all K V (e_cache K V st) limit offset with Ok (_ :: _) => false | Ok [] => true | Raise _ => false end
+  | RetrieveAll batch =>
+      match retrieve_all K V (e_cache K V st) batch with Ok (Some (_ :: _)) => false | Raise _ => false | _ => true end
+  | _ => false
+  end.
